@@ -330,7 +330,7 @@ func coordinate(p *Prop, tier string) int {
 		return 2
 	}
 	fmt.Fprintf(os.Stderr, "%s %s: units=%d evals=%d states=%d nontrivial=%d transitions=%d violations=%d known=%v exhaustive=%v wall=%.1fs\n",
-		p.ID, tier, len(units), total.Evals, len(total.States), len(total.Nontrivial), total.Transitions, len(lines), total.KnownHits, exhaustive, wall)
+		p.ID, tier, len(units), total.Evals, int64(len(total.States))+total.ExtraStates, int64(len(total.Nontrivial))+total.ExtraNontrivial, total.Transitions, len(lines), total.KnownHits, exhaustive, wall)
 	if len(total.Incomplete) > 0 {
 		fmt.Fprintf(os.Stderr, "%s: time budget reached; %d units cut (first: %s)\n", p.ID, len(total.Incomplete), total.Incomplete[0])
 	}
@@ -484,10 +484,10 @@ func replayMain(path string) int {
 func writeEvidence(p *Prop, tier string, r *Report, exhaustive bool, wall float64, nviol, nunits int, known []Finding) error {
 	cov := map[string]interface{}{
 		"evaluations":                   r.Evals,
-		"distinct_nontrivial":           len(r.Nontrivial),
+		"distinct_nontrivial":           int64(len(r.Nontrivial)) + r.ExtraNontrivial,
 		"rule":                          p.Rule,
 		"samples":                       r.Samples,
-		"states":                        len(r.States),
+		"states":                        int64(len(r.States)) + r.ExtraStates,
 		"transitions":                   r.Transitions,
 		"traces_validated_against_impl": r.Traces,
 		"exhaustive":                    exhaustive,
